@@ -8,7 +8,8 @@ import random
 
 from .pat import node, ins, lit, seq, group, icap, ocap, rcap
 
-MN = ["a", "b", "c", "ab", "p"]
+# single letters (which also occur inside addresses and other names) and real words (which occur nowhere else)
+MN = ["a", "b", "c", "ab", "p", "inc", "xchg", "leave"]
 OPS = ["x", "y", "xy", "%r8", "%r8d", "0x1", "0x10", "%rax", "%eax", "%al"]
 
 
